@@ -48,7 +48,11 @@ def _native_or(interp, st, f, args, kwargs, node, fallback):
 def py_len(interp, st, v, node=None):
     """-> yields (st, VInt | Raise)"""
     from .chars import VChars
-    if isinstance(v, VChars):
+    from .segs import VSegs, total_len
+    if isinstance(v, VSegs):
+        n = total_len(v.segs)
+        yield st, (VInt(n) if isinstance(n, int) else mk_int(n))
+    elif isinstance(v, VChars):
         yield st, VInt(len(v.codes))
     elif isinstance(v, (VStr, VBytes)):
         yield st, (VInt(len(v.v)) if v.concrete else mk_int(z3.Length(v.v)))
@@ -256,6 +260,10 @@ def t_bytes(interp, st, args, kwargs, node=None):
         yield st, VBytes(b'')
         return
     v = args[0]
+    from .segs import VSegs
+    if isinstance(v, VSegs):
+        yield st, v
+        return
     if isinstance(v, VBytes):
         yield st, VBytes(v.v)
         return
@@ -403,6 +411,9 @@ def py_type(st, v):
     if isinstance(v, VStr):
         return str
     from .chars import VChars
+    from .segs import VSegs
+    if isinstance(v, VSegs):
+        return bytes
     if isinstance(v, VChars):
         return bytes if v.is_bytes else str
     if isinstance(v, VBytes):
@@ -928,6 +939,9 @@ def m_next(interp, st, args, kwargs, node=None):
 @model(binascii.hexlify)
 def m_hexlify(interp, st, args, kwargs, node=None):
     v = args[0]
+    from .segs import VSegs, to_vbytes
+    if isinstance(v, VSegs):
+        v = to_vbytes(v)
     if not isinstance(v, VBytes):
         yield st, exc(TypeError, "a bytes-like object is required")
         return
@@ -964,14 +978,34 @@ def m_unhexlify(interp, st, args, kwargs, node=None):
 @model(int.from_bytes)
 def m_from_bytes(interp, st, args, kwargs, node=None):
     v = args[0]
+    from .segs import VSegs, to_vbytes, total_len
+    known_len = None
+    if isinstance(v, VSegs):
+        known_len = total_len(v.segs)
+        v = to_vbytes(v)
+    if not isinstance(v, VBytes):
+        yield st, exc(TypeError, "cannot convert to bytes")
+        return
     order = args[1] if len(args) > 1 else kwargs.get('byteorder', VStr('big'))
     signed = kwargs.get('signed', VBool(False))
     if v.concrete and order.concrete and signed.concrete:
         yield st, VInt(int.from_bytes(v.v, unlift(order), signed=unlift(signed)))
         return
+    val = int_from_bytes(v.term(), unlift(order))
     if unlift(signed):
-        raise Unsupported("int.from_bytes signed symbolic", node)
-    yield st, VInt(int_from_bytes(v.v, unlift(order)))
+        n = z3.Length(v.term())
+        from .ops import pow2
+        nn = z3.IntVal(known_len) if isinstance(known_len, int) else z3.simplify(n)
+        if z3.is_int_value(nn):
+            k = nn.as_long()
+            if k == 0:
+                yield st, VInt(0)
+                return
+            yield st, mk_int(z3.If(val >= 2 ** (8 * k - 1), val - 2 ** (8 * k), val))
+            return
+        yield st, mk_int(z3.If(z3.And(n > 0, val >= pow2(8 * n - 1)), val - pow2(8 * n), val))
+        return
+    yield st, VInt(val)
 
 
 def int_from_bytes(t, order):
@@ -984,6 +1018,13 @@ def int_from_bytes(t, order):
 
 def call_method(interp, st, recv, name, args, kwargs, node=None):
     from .chars import VChars, chars_method, format_chars, to_vstr
+    from .segs import VSegs, to_vbytes, BytesIOCell, bytesio_method
+    if isinstance(recv, VRef) and isinstance(st.heap[recv.addr], BytesIOCell):
+        yield from bytesio_method(interp, st, recv, st.heap[recv.addr], name, args, kwargs, node)
+        return
+    if isinstance(recv, VSegs):
+        recv = to_vbytes(recv)
+    args = [to_vbytes(a) if isinstance(a, VSegs) else a for a in args]
     if isinstance(recv, VChars):
         yield from chars_method(interp, st, recv, name, args, kwargs, node)
         return
@@ -1043,19 +1084,36 @@ def int_method(interp, st, recv, name, args, kwargs, node):
         bm.note(interp, 'int.to_bytes')
         f = bm._TOLE if o == 'little' else bm._TOBE
         p = pow2(8 * iterm(ln)) if not isinstance(ln, int) else 2 ** (8 * ln)
+        from .segs import VSegs
+
+        def mkres(term):
+            # keep the (concrete) length with the value: a one-segment byte string
+            return VSegs([('sym', term, ln)]) if isinstance(ln, int) else VBytes(term)
         if not sg:
             ok = z3.And(iterm(t) >= 0, iterm(t) < p)
-            yield from interp.alts(st, [(ok, VBytes(f(iterm(t), iterm(ln)))), (z3.Not(ok), exc(OverflowError, "int too big to convert"))])
+            res = mkres(f(iterm(t), iterm(ln)))
         else:
             half = p / 2 if not isinstance(p, int) else p // 2
             ok = z3.And(iterm(t) >= -half, iterm(t) < half)
-            enc = z3.If(iterm(t) >= 0, iterm(t), iterm(t) + p)
-            yield from interp.alts(st, [(ok, VBytes(f(enc, iterm(ln)))), (z3.Not(ok), exc(OverflowError, "int too big to convert"))])
+            enc = iterm(t) if st.entails(iterm(t) >= 0) else z3.If(iterm(t) >= 0, iterm(t), iterm(t) + p)
+            res = mkres(f(enc, iterm(ln)))
+        if st.entails(ok):
+            yield st, res
+        else:
+            yield from interp.alts(st, [(ok, res), (z3.Not(ok), exc(OverflowError, "int too big to convert"))])
         return
     if name == 'bit_length':
         if isinstance(t, int):
             yield st, VInt(t.bit_length())
             return
+        for bound in (8, 16, 32, 64, 128, 256, 512):
+            if st.entails(z3.And(t >= 0, t < 2 ** bound)):
+                alts = [(t == 0, VInt(0))] + [(z3.And(t >= 2 ** (b - 1), t < 2 ** b), VInt(b)) for b in range(1, bound + 1)]
+                bm.note(interp, 'int.bit_length(bounded case split)')
+                for s1, r in interp.alts(st, alts):
+                    if interp.feasible(s1):
+                        yield s1, r
+                return
         bl = z3.Int(fresh_name('bitlen'))
         a = z3.If(t >= 0, t, -t)
         st.assume(z3.And(bl >= 0, z3.Implies(a == 0, bl == 0),
